@@ -197,8 +197,16 @@ impl ScannerConfig {
         // Add the error token as last terminal of the mode, unless allow_unmatched is set
         if !self.allow_unmatched {
             let error_index = terminal_names.len() - 1;
+            // The catch-all pattern `.` does not match a line feed. When newlines are not handled
+            // automatically a stray line feed must be caught as well, otherwise it would be
+            // silently skipped as unmatched input.
+            let error_pattern = if self.auto_newline {
+                ERROR_TOKEN.to_owned()
+            } else {
+                format!(r"{ERROR_TOKEN}|\n")
+            };
             terminal_mappings.push((
-                ERROR_TOKEN.to_owned(),
+                error_pattern,
                 error_index as TerminalIndex,
                 None,
                 terminal_names[error_index].clone(),
